@@ -22,6 +22,28 @@ METHODS = ["min_fill", "quickbb", "acb"]
 TW_MAX = 9          # the treewidth oracle (pruned search tw_below, proved = tw_perm) is run up to this many vertices
 F8_KEY = "acb_isolated_vertex"
 
+# random cubic graphs (found once by search, kept as data) on which min_fill is NOT optimal in the
+# recorded dict insertion order, so that quickbb's branch and bound has to find a better order:
+# (n, edges, insertion order); the trailing comments give the widths found by the implementation
+HARD_CUBIC = [
+    (14, [(0, 4), (0, 6), (0, 11), (1, 4), (1, 8), (1, 13), (2, 5), (2, 6), (2, 10), (3, 8), (3, 9), (3, 10), (4, 12), (5, 7), (5, 13), (6, 12), (7, 9), (7, 12), (8, 13), (9, 11), (10, 11)], [2, 0, 8, 1, 4, 9, 5, 12, 6, 11, 3, 7, 13, 10]),   # min_fill 5, quickbb 4
+    (14, [(0, 2), (0, 10), (0, 12), (1, 2), (1, 6), (1, 7), (2, 3), (3, 8), (3, 11), (4, 8), (4, 10), (4, 11), (5, 6), (5, 10), (5, 13), (6, 7), (7, 9), (8, 13), (9, 11), (9, 12), (12, 13)], [5, 13, 8, 10, 1, 12, 3, 6, 2, 11, 9, 7, 4, 0]),   # min_fill 5, quickbb 4
+    (14, [(0, 5), (0, 7), (0, 11), (1, 2), (1, 8), (1, 12), (2, 3), (2, 5), (3, 6), (3, 7), (4, 6), (4, 10), (4, 13), (5, 9), (6, 10), (7, 12), (8, 11), (8, 13), (9, 10), (9, 11), (12, 13)], [13, 3, 8, 0, 7, 5, 6, 9, 10, 4, 1, 2, 12, 11]),   # min_fill 5, quickbb 4
+    (14, [(0, 6), (0, 7), (0, 12), (1, 2), (1, 6), (1, 13), (2, 7), (2, 11), (3, 6), (3, 8), (3, 10), (4, 7), (4, 9), (4, 10), (5, 8), (5, 9), (5, 13), (8, 9), (10, 11), (11, 12), (12, 13)], [12, 6, 4, 10, 3, 13, 5, 1, 2, 0, 11, 8, 7, 9]),   # min_fill 5, quickbb 4
+    (14, [(0, 1), (0, 9), (0, 12), (1, 5), (1, 8), (2, 3), (2, 4), (2, 9), (3, 10), (3, 13), (4, 5), (4, 7), (5, 12), (6, 7), (6, 11), (6, 12), (7, 8), (8, 10), (9, 13), (10, 11), (11, 13)], [6, 4, 5, 10, 12, 1, 0, 11, 2, 3, 13, 9, 7, 8]),   # min_fill 5, quickbb 4
+    (12, [(0, 2), (0, 4), (0, 6), (1, 3), (1, 7), (1, 9), (2, 7), (2, 11), (3, 4), (3, 10), (4, 5), (5, 7), (5, 8), (6, 8), (6, 10), (8, 11), (9, 10), (9, 11)], [7, 3, 0, 1, 8, 4, 6, 10, 5, 2, 9, 11]),   # min_fill 5, quickbb 4
+    (12, [(0, 4), (0, 6), (0, 9), (1, 5), (1, 8), (1, 11), (2, 5), (2, 6), (2, 7), (3, 7), (3, 10), (3, 11), (4, 5), (4, 10), (6, 11), (7, 8), (8, 9), (9, 10)], [3, 10, 9, 6, 5, 4, 1, 7, 8, 11, 2, 0]),   # min_fill 5, quickbb 4
+    (14, [(0, 2), (0, 4), (0, 13), (1, 9), (1, 11), (1, 12), (2, 3), (2, 6), (3, 7), (3, 9), (4, 5), (4, 10), (5, 8), (5, 11), (6, 12), (6, 13), (7, 8), (7, 10), (8, 13), (9, 11), (10, 12)], [9, 5, 7, 1, 4, 2, 12, 8, 11, 10, 13, 6, 3, 0]),   # min_fill 5, quickbb 4
+    (12, [(0, 4), (0, 9), (0, 11), (1, 4), (1, 5), (1, 11), (2, 4), (2, 6), (2, 11), (3, 6), (3, 7), (3, 8), (5, 8), (5, 9), (6, 10), (7, 9), (7, 10), (8, 10)], [9, 7, 0, 2, 5, 3, 1, 6, 8, 4, 11, 10]),   # min_fill 4, quickbb 3
+    (12, [(0, 3), (0, 8), (0, 11), (1, 6), (1, 8), (1, 9), (2, 3), (2, 5), (2, 8), (3, 4), (4, 6), (4, 10), (5, 7), (5, 10), (6, 7), (7, 11), (9, 10), (9, 11)], [1, 2, 0, 8, 10, 7, 3, 11, 9, 6, 4, 5]),   # min_fill 5, quickbb 4
+    (12, [(0, 4), (0, 5), (0, 6), (1, 2), (1, 3), (1, 8), (2, 6), (2, 9), (3, 4), (3, 7), (4, 8), (5, 10), (5, 11), (6, 10), (7, 9), (7, 10), (8, 11), (9, 11)], [11, 9, 4, 7, 10, 6, 3, 5, 8, 0, 1, 2]),   # min_fill 5, quickbb 4
+    (12, [(0, 1), (0, 4), (0, 10), (1, 2), (1, 9), (2, 7), (2, 8), (3, 5), (3, 10), (3, 11), (4, 5), (4, 8), (5, 7), (6, 7), (6, 9), (6, 10), (8, 11), (9, 11)], [1, 3, 6, 5, 9, 8, 11, 10, 7, 0, 4, 2]),   # min_fill 5, quickbb 4
+    (12, [(0, 5), (0, 10), (0, 11), (1, 8), (1, 9), (1, 10), (2, 6), (2, 7), (2, 10), (3, 6), (3, 8), (3, 9), (4, 5), (4, 6), (4, 11), (5, 9), (7, 8), (7, 11)], [6, 5, 9, 7, 2, 4, 3, 11, 8, 1, 10, 0]),   # min_fill 5, quickbb 4
+    (12, [(0, 4), (0, 5), (0, 11), (1, 3), (1, 6), (1, 9), (2, 3), (2, 6), (2, 7), (3, 4), (4, 8), (5, 7), (5, 9), (6, 10), (7, 8), (8, 10), (9, 11), (10, 11)], [7, 11, 5, 10, 2, 1, 9, 6, 3, 4, 0, 8]),   # min_fill 5, quickbb 4
+    (12, [(0, 3), (0, 9), (0, 11), (1, 2), (1, 5), (1, 11), (2, 9), (2, 10), (3, 4), (3, 6), (4, 10), (4, 11), (5, 7), (5, 8), (6, 7), (6, 8), (7, 9), (8, 10)], [6, 5, 11, 4, 10, 9, 0, 7, 2, 3, 8, 1]),   # min_fill 5, quickbb 4
+    (12, [(0, 3), (0, 6), (0, 8), (1, 5), (1, 6), (1, 9), (2, 8), (2, 10), (2, 11), (3, 7), (3, 10), (4, 6), (4, 7), (4, 11), (5, 10), (5, 11), (7, 9), (8, 9)], [8, 9, 0, 6, 1, 3, 7, 10, 11, 2, 4, 5]),   # min_fill 5, quickbb 4
+]
+
 # ----------------------------------------------------------------------------
 # graphs: list of (v, sorted neighbour list) over 0..n-1, in dict insertion order
 
@@ -122,15 +144,15 @@ def bench_graphs():
 # ----------------------------------------------------------------------------
 
 class Case:
-    def __init__(self, g, kind, src, expect=None, methods=METHODS, model=True, helpers=True):
+    def __init__(self, g, kind, src, expect=None, methods=METHODS, model=True, helpers=True, tw=False):
         self.g, self.kind, self.src, self.expect = g, kind, src, expect
-        self.methods, self.model, self.helpers = methods, model, helpers
+        self.methods, self.model, self.helpers, self.tw = methods, model, helpers, tw
         self.exc = {}
     def mode(self):
         n = len(self.g)
         m = 0
         if self.model: m |= 1
-        if n <= TW_MAX and self.expect is None: m |= 2
+        if (n <= TW_MAX or self.tw) and self.expect is None: m |= 2
         return m
     def meta(self, **kw):
         d = dict(graph=self.g, key_kind=self.kind, source=self.src)
@@ -207,8 +229,9 @@ def build_cases(tier, rng):
             n_exh += 1
             cases.append(Case(g, 0, "exhaustive"))
             if n >= 2 and (n <= 5):
-                # two further insertion orders of the same graph: reversed, random
-                cases.append(Case(reorder(g, list(range(n))[::-1]), 0, "exhaustive-reversed"))
+                # further insertion orders of the same graph: reversed (quick: only up to 4 vertices), random
+                if n <= 4 or tier == "thorough":
+                    cases.append(Case(reorder(g, list(range(n))[::-1]), 0, "exhaustive-reversed"))
                 o = list(range(n)); rng.shuffle(o)
                 cases.append(Case(reorder(g, o), rng.choice([0, 1, 2, 3]), "exhaustive-shuffled"))
     special = []
@@ -235,7 +258,7 @@ def build_cases(tier, rng):
             o = list(range(n)); rng.shuffle(o)
             cases.append(Case(reorder(g, o), 0, name + "-shuffled"))
             cases.append(Case(reorder(g, o[::-1]), rng.choice([1, 2, 3]), name + "-shuffled-keys"))
-    n_rand = 260 if tier == "quick" else 4000
+    n_rand = 260 if tier == "quick" else 12000
     for i in range(n_rand):
         n = rng.choice([6, 7, 7, 8, 8, 9]) if tier == "quick" else rng.choice([6, 7, 7, 8, 8, 9, 9])
         g = random_graph(rng, n, rng.choice([0.15, 0.3, 0.45, 0.6, 0.8]))
@@ -244,6 +267,11 @@ def build_cases(tier, rng):
             g = mk(n, [(a, b) for a, b in edges_of(g) if a != v and b != v])
         o = list(range(n)); rng.shuffle(o)
         cases.append(Case(reorder(g, o), 0 if i % 3 else rng.choice([1, 2, 3]), "random"))
+    for n, es, order in HARD_CUBIC:
+        if tier == "quick" and n > 12: continue
+        cases.append(Case(mk(n, es, order), 0, "cubic%d" % n, tw=True))
+        o = list(range(n)); rng.shuffle(o)
+        cases.append(Case(mk(n, es, o), rng.choice([0, 1, 2, 3]), "cubic%d-shuffled" % n, tw=True))
     for fn, g, tw, meths in bench_graphs():
         # methods as in /repo/test/test_factorize.py
         cases.append(Case(g, 0, "bench:" + fn, expect=tw, methods=meths, model=True, helpers=True))
@@ -254,7 +282,7 @@ def _run_model(cf, values, seed, tag, tier):
     verdicts on the smallest graphs are re-evaluated inside the Coq kernel (vm_compute) and must
     agree.  (Own copy of core.run_model with tier-dependent caps: vm_compute is ~100x slower than
     the extracted code on 9-vertex graphs.)"""
-    n_sample, n_bad = (24, 16) if tier == "quick" else (60, 40)
+    n_sample, n_bad = (16, 12) if tier == "quick" else (60, 40)
     codes = run_ocaml(cf, values)
     rng = random.Random(seed * 7919 + 13)
     idx = list(range(len(values)))
@@ -290,7 +318,12 @@ def run(tier, seed):
         key = None
         if code == 1 and method == "acb" and has_isolated(c.g):
             key = F8_KEY; f8 += 1
-        violations.append(Violation("%s: %s" % (method, TD_MSG.get(code, "verdict code %d" % code)),
+        msg = TD_MSG.get(code, "verdict code %d" % code)
+        if code == 10 and method == "acb" and has_isolated(c.g):
+            msg += (" -- the implementation's tree is valid and optimal here while the model still contains defect F8"
+                    " (acb's early return): if /repo was repaired, apply the one-line model patch of notes/C10.md to"
+                    " Model.TreeDec.acb_loop and mark the known finding fixed")
+        violations.append(Violation("%s: %s" % (method, msg),
                                     case=c.meta(method=method), observed=(v[4] if code != 5 else c.exc.get(method)),
                                     oracle="td_ok / tw_perm" if code < 10 else None,
                                     corr="C10_td_check_sound (C10_td_ok_sound_complete, C10_tw_oracle_spec) / corr:tree_decomposition (Model.TreeDec.td_check code %d)" % code,
@@ -339,7 +372,7 @@ def run(tier, seed):
         samples.append(dict(graph=c.g, key_kind=c.kind, source=c.src, method=method, impl_tree=v[4], verdict=codes[pick]))
     cov = dict(evaluations=len(out["td"]) + len(out["ord"]) + len(out["mmw"]),
                distinct_nontrivial=len(nontriv),
-               rule="every labelled simple graph on <= %d vertices (%d graphs; those on 2..5 vertices additionally with reversed and with shuffled dict insertion order) + cliques K1..K8, grids, paths, stars, cycles, random trees, disjoint unions, graphs with isolated vertices, the empty graph + random graphs on 6..9 vertices with shuffled insertion order and 4 key types + the benchmark graphs of /repo/test/graphs; each x {min_fill, quickbb, acb} x {tree_decomposition, min_fill, quickbb, minor_min_width}; every call gets a fresh copy of the graph. non-trivial = >= 3 vertices and >= 1 edge, distinct by (n, edge set)" % (exh, n_exh),
+               rule="every labelled simple graph on <= %d vertices (%d graphs; those on 2..5 vertices additionally with a shuffled dict insertion order and key type, and -- quick: up to 4 vertices -- with reversed insertion order) + cliques K1..K8, grids, paths, stars, cycles, random trees, disjoint unions, graphs with isolated vertices, the empty graph + random graphs on 6..9 vertices with shuffled insertion order and 4 key types + cubic graphs on 12..14 vertices on which min_fill is suboptimal + the benchmark graphs of /repo/test/graphs; each x {min_fill, quickbb, acb} x {tree_decomposition, min_fill, quickbb, minor_min_width}; every call gets a fresh copy of the graph. non-trivial = >= 3 vertices and >= 1 edge, distinct by (n, edge set)" % (exh, n_exh),
                exhaustive_part="all labelled graphs on <= %d vertices" % exh,
                samples=samples, size_histogram=sizes, source_histogram=srcs, calls_per_method=hist,
                kernel_reevaluated=nk, seconds=dict(implementation_calls=round(t_impl, 1), total_run=round(time.time() - t0, 1)),
@@ -347,7 +380,6 @@ def run(tier, seed):
                                     note="int keys, <= 8 vertices; measured only"),
                f8_cases=f8,
                open_items=["C10_quickbb_optimal / C10_acb_optimal for all graphs (only _upto5 proved; tier B: safety of the simplicial / almost-simplicial reductions, of the 'v not in sep' rule and of the ACP dynamic programme)",
-                           "quickbb returns for every graph (no 'assert f == g' failure): only _upto5; C10_quickbb_valid_partial covers validity whenever it returns",
                            "acb is valid on every graph without isolated vertex: only _upto5"])
     return cov, violations
 
@@ -375,7 +407,7 @@ def replay(path):
 
 MANIFEST = dict(
     level="proof",
-    text="Coq theorems about a Gallina model that follows fggs/factorize.py statement by statement. Unbounded (every simple undirected graph): for every permutation of the vertices tree_decomposition_from_order returns a valid tree decomposition (tree = connected + every edge a bridge, vertex and edge cover, running intersection) whose width is the elimination width; min_fill returns a permutation together with exactly that width, so method='min_fill' is valid; quickbb is valid whenever its model returns; minor_min_width <= treewidth <= min_fill; tw_perm (least elimination width) is the least width of a valid tree decomposition; the executable checker td_ok is sound and complete. Bounded (all labelled graphs on <= 5 vertices, all dict insertion orders on <= 4): quickbb and acb return a decomposition of width exactly the treewidth; acb's defect on graphs with an isolated vertex (F8) is proved for the model (C10_acb_isolated_refuted, C10_acb_isolated_invalid_upto5). Every implementation output is judged by the extracted td_ok and treewidth oracle and compared with the model at the level (valid?, width).",
+    text="Coq theorems about a Gallina model that follows fggs/factorize.py statement by statement. Unbounded (every simple undirected graph): for every permutation of the vertices tree_decomposition_from_order returns a valid tree decomposition (tree = connected + every edge a bridge, vertex and edge cover, running intersection) whose width is the elimination width; min_fill returns a permutation together with exactly that width, so method='min_fill' is valid; quickbb always returns (its assert cannot fail) a permutation with its elimination width, so method='quickbb' is valid; minor_min_width <= treewidth <= min_fill; tw_perm (least elimination width) is the least width of a valid tree decomposition; the executable checker td_ok is sound and complete. Bounded (all labelled graphs on <= 5 vertices, all dict insertion orders on <= 4): quickbb and acb return a decomposition of width exactly the treewidth; acb's defect on graphs with an isolated vertex (F8) is proved for the model (C10_acb_isolated_refuted, C10_acb_isolated_invalid_upto5). Every implementation output is judged by the extracted td_ok and treewidth oracle and compared with the model at the level (valid?, width).",
     note="Trusted: Coq kernel + vm_compute, extraction (ExtrOcamlBasic) cross-checked against vm_compute, the Python harness that numbers dict keys and converts the tree dict to (bags, index pairs). Optimality of the exact methods (and validity of acb) beyond 5 vertices is tested against the verified oracles on every run, not proved.",
     technique="Coq proof (model + theorems) + model/implementation correspondence with verified-spec oracle",
     design_ref="DESIGN.md section 6, C10; Appendix A.9; Appendix C (C10)")
